@@ -72,6 +72,48 @@ def _pad_reuse_expr(array, pad_width, mode, **kwargs):
     return result
 
 
+def _pad_reuse_wide_axis(array, axis, before, after, mode):
+    """Pad one axis by more than the array holds along it (NumPy repeats the
+    reflection / the period as often as needed): concatenate whole images of
+    the array and one partial image at the far end of each side."""
+    from dask_array.manipulation._flip import flip
+
+    n = array.shape[axis]
+    flipped = flip(array, axis) if mode != "wrap" else array
+
+    def cut(a, sl):
+        return a[(slice(None),) * axis + (sl,)]
+
+    if mode == "reflect":
+        # the edge element is not repeated: every image is one element short
+        size = n - 1
+        left_images = [cut(flipped, slice(None, -1)), cut(array, slice(None, -1))]
+        right_images = [cut(flipped, slice(1, None)), cut(array, slice(1, None))]
+    elif mode == "symmetric":
+        size = n
+        left_images = right_images = [flipped, array]
+    else:
+        size = n
+        left_images = right_images = [array, array]
+
+    left = []
+    full, part = divmod(before, size)
+    for k in range(full):
+        left.append(left_images[k % 2])
+    if part:
+        left.append(cut(left_images[full % 2], slice(size - part, None)))
+    left.reverse()
+
+    right = []
+    full, part = divmod(after, size)
+    for k in range(full):
+        right.append(right_images[k % 2])
+    if part:
+        right.append(cut(right_images[full % 2], slice(None, part)))
+
+    return concatenate(left + [array] + right, axis=axis)
+
+
 def _pad_stats_expr(array, pad_width, mode, stat_length):
     """
     Helper function for padding boundaries with statistics from the array.
@@ -265,6 +307,23 @@ def pad(array, pad_width, mode="constant", **kwargs):
     elif mode in {"edge", "empty"}:
         return _pad_edge_expr(array, pad_width, mode)
     elif mode in ["reflect", "symmetric", "wrap"]:
-        return _pad_reuse_expr(array, pad_width, mode, **kwargs)
+        # One pass can only reuse what the array holds along an axis.  Wider
+        # pads (NumPy repeats the image) are built axis by axis first.
+        narrow = []
+        for axis, (before, after) in enumerate(pad_width):
+            limit = array.shape[axis] - 1 if mode == "reflect" else array.shape[axis]
+            if limit > 0 and max(before, after) > limit and kwargs.get("reflect_type", "even") == "even":
+                array = _pad_reuse_wide_axis(array, axis, before, after, mode)
+                narrow.append((0, 0))
+            elif limit == 0 and mode == "reflect" and array.shape[axis] == 1 and (before or after):
+                # a single element has nothing to reflect: NumPy repeats it
+                widths = tuple((before, after) if ax == axis else (0, 0) for ax in range(array.ndim))
+                array = _pad_edge_expr(array, widths, "edge")
+                narrow.append((0, 0))
+            else:
+                narrow.append((before, after))
+        if not any(w for pair in narrow for w in pair):
+            return array
+        return _pad_reuse_expr(array, tuple(narrow), mode, **kwargs)
 
     raise RuntimeError("unreachable")
